@@ -214,6 +214,21 @@ func checkC15(ci any, info *CaseInfo) string {
 		if o.Err != nil {
 			return ""
 		}
+		// the events themselves (GC running between them) against the documented
+		// mapping: an invalid pointer conversion shows as a wrong value even
+		// when both runs agree with each other
+		if exp, merr := gomodel.FoldModel(rv); merr == nil {
+			rec := &model.Recorder{}
+			ro := foldTo(rv, newGCVisitor(rec, c.GCAt))
+			if ro.Panicked() || ro.Err != nil {
+				return fmt.Sprintf("fold with GC at events %v: %v, into the %s encoder: %v (%s)", c.GCAt, ro, c.Format, o, describeGo(c.Go, rv))
+			}
+			if got, terr := model.Tree(rec.Evs); terr != nil {
+				return fmt.Sprintf("fold with GC at events %v emits a malformed stream: %v (%s)", c.GCAt, terr, describeGo(c.Go, rv))
+			} else if d := model.Diff(exp, got, model.Rules{AnyNaN: true}); d != "" {
+				return fmt.Sprintf("fold with GC at events %v emits another value than the documented mapping: %s (%s)\n  model: %v\n  fold:  %v", c.GCAt, d, describeGo(c.Go, rv), exp, got)
+			}
+		}
 		if !bytes.Equal(buf.Bytes(), plain) {
 			va, e1 := refDecodeOne(c.Format, buf.Bytes())
 			vb, e2 := refDecodeOne(c.Format, plain)
@@ -418,7 +433,7 @@ func drawC15(t *rapid.T) any {
 func init() {
 	register(&Property{
 		ID:    "C15",
-		Rule:  "histories of 1..4 string-heavy documents (strings/keys with lengths straddling the parsers' 64-byte scratch buffers, escapes, multi-byte runes) encoded with the library encoders and pushed through ONE parser (Write from a scratch buffer that is overwritten right after each Write, generated chunkings; the last chunk of a cborl/ubjson document by Write, Parse or ParseString) or ONE pull decoder (reader schedules, buffer sizes 1..256) into ONE unfolder (SetTarget per document; with/without key cache) with targets interface{}, map[string]string, []string and a reflect-built struct with string, []string, map[string]string, interface{} and map[string]struct fields, optionally with forced GCs at drawn event boundaries; oracle = each result equals a control run (one-shot Parse of an untouched copy into a fresh unfolder) and still equals its snapshot after all later documents, buffer overwrites and two forced GCs; fold mode: Fold -> encoder output is the same with GCs forced at drawn events; direct mode: Fold straight into an Unfolder for values whose folder (FRefObj — as field, inlined field, slice element, map value, pointer) reports keys and strings by reference from a scratch buffer it overwrites after every call: the stored value must equal the folded one. non-trivial = a chunk boundary inside a document, or more than one document through the same parser/unfolder; distinct by case hash. The thorough tier repeats the search with the -race build (checkptr instrumentation of unsafe conversions)",
+		Rule:  "histories of 1..4 string-heavy documents (strings/keys with lengths straddling the parsers' 64-byte scratch buffers, escapes, multi-byte runes) encoded with the library encoders and pushed through ONE parser (Write from a scratch buffer that is overwritten right after each Write, generated chunkings; the last chunk of a cborl/ubjson document by Write, Parse or ParseString) or ONE pull decoder (reader schedules, buffer sizes 1..256) into ONE unfolder (SetTarget per document; with/without key cache) with targets interface{}, map[string]string, []string and a reflect-built struct with string, []string, map[string]string, interface{} and map[string]struct fields, optionally with forced GCs at drawn event boundaries; oracle = each result equals a control run (one-shot Parse of an untouched copy into a fresh unfolder) and still equals its snapshot after all later documents, buffer overwrites and two forced GCs; fold mode (generated fold-side types incl. registered and implemented folders reached through fields, elements and pointers): Fold -> encoder output is the same with GCs forced at drawn events, and the events emitted with those GCs equal the documented mapping (fold model); direct mode: Fold straight into an Unfolder for values whose folder (FRefObj — as field, inlined field, slice element, map value, pointer) reports keys and strings by reference from a scratch buffer it overwrites after every call: the stored value must equal the folded one. non-trivial = a chunk boundary inside a document, or more than one document through the same parser/unfolder; distinct by case hash. The thorough tier repeats the search with the -race build (checkptr instrumentation of unsafe conversions)",
 		New:   func() any { return &C15Case{} },
 		Draw:  drawC15,
 		Check: checkC15,
